@@ -8,7 +8,7 @@ ROOT = os.path.dirname(os.path.dirname(os.path.abspath(__file__)))
 CLAIMED = {
     "C01": ("batch", "differential PBT: rapid-generated grammars+inputs, real generated parsers vs. reference PEG interpreter",
             "Bounded generated search: rapid draws well-formed grammars (all pure expression kinds, nested) and inputs; every grammar is compiled by the real pigeon under two flag sets and each Parse result (success, consumed prefix, deep value shape) is compared with an independent reference interpreter. Exploration is the right level: the property quantifies over grammars x inputs x flags, which only sampling with a strong oracle reaches.",
-            "Trusted: the reference interpreter refpeg (independent of pigeon), the Go toolchain. Bounds: grammars <= ~60 nodes, inputs <= 48 bytes.", "DESIGN.md 3/C01"),
+            "Trusted: the reference interpreter refpeg (independent of pigeon), the Go toolchain. Bounds: grammars <= ~60 nodes plus, one in ten, big entry rules (66-258 alternatives / items, literals up to 4200 bytes, chains of 70-300 rules); inputs <= 48 bytes plus, one in 150, 300-9000 bytes.", "DESIGN.md 3/C01"),
     "C02": ("batch", "differential PBT: complete code-block event traces of generated parsers vs. reference interpreter",
             "Bounded generated search over grammars with labels/actions/predicates/state blocks at every nesting level and inputs biased to newlines and multi-byte runes; the complete ordered event trace (text, pos, labels, predicate answers) of every real parse is compared with the reference trace.",
             "Trusted: refpeg, the recorder vrt. Known finding KF-C02-STALECTX is tolerated field-wise (exact stale pattern only) and counted.", "DESIGN.md 3/C02"),
@@ -20,10 +20,10 @@ CLAIMED = {
             "Trusted: refpeg's error model (positions, innermost rule, de-duplication).", "DESIGN.md 3/C11"),
     "C12": ("batch", "differential PBT: farthest-failure message of generated parsers vs. reference failure-event model",
             "Bounded generated search over grammars without code and failing inputs; the single no-match error (offset, line:col, sorted expected set with inverted entries and EOF) is compared with the reference.",
-            "Trusted: refpeg's failure-event accounting. Known finding KF-C12-NLSTART tolerated by exact pattern.", "DESIGN.md 3/C12"),
+            "Trusted: refpeg's failure-event accounting. Known finding KF-C12-LRMEMO (left-recursive rule tried again at an offset inside another parity of ! nesting) tolerated for the message only, by an oracle-side predicate, and counted.", "DESIGN.md 3/C12"),
     "C14": ("batch", "differential PBT: throw/recover grammars, generated parsers vs. reference dynamic handler stack",
             "Bounded generated search over grammars with nested recovery operators and throws; success, consumed prefix, value and code-block trace compared with the reference's handler-stack semantics.",
-            "Trusted: refpeg's handler stack model.", "DESIGN.md 3/C14"),
+            "Trusted: refpeg's handler stack model. Every fourth grammar is left-recursive with throw / recover; known finding KF-C14-LRMEMO (left-recursive rule tried again at an offset under other recovery operators) excluded by an oracle-side predicate and counted.", "DESIGN.md 3/C14"),
     "C17": ("batch", "differential PBT: invalid UTF-8 byte strings, both AllowInvalidUTF8 modes, vs. reference width-1 U+FFFD decoding",
             "Bounded generated search over byte strings with injected invalid sequences x grammars x both modes; values, action text/pos and the complete invalid-encoding error list compared with the reference.",
             "Trusted: refpeg's advance model. Known finding KF-C17-FFFD-EOF excluded by an oracle-side predicate.", "DESIGN.md 3/C17"),
@@ -44,7 +44,7 @@ CLAIMED = {
             "Trusted: refpeg.ClassMember (definition of membership). Known finding KF-C15-ICLOWER excluded per (class, rune) by an oracle-side model of the defect.", "DESIGN.md 3/C15"),
     "C16": ("batch", "PBT over budgets: MaxExpressions(n) relative to the measured need N, diverging grammars, all option combinations; reference run under the same budget",
             "Bounded generated search over grammars (incl. diverging repetitions) x inputs x budgets x options; returns within the watchdog, n>=N identical result, n<N error reported, event/ExprCnt bounds, exact error list vs. the reference under the same budget (non-memoized).",
-            "Termination is decided by a generous watchdog (20 s per Parse, confirmed twice in isolation). Known finding KF-C16-MEMOZERO excluded by an oracle-side predicate.", "DESIGN.md 3/C16"),
+            "Termination is decided by a generous watchdog (20 s per Parse, confirmed twice in isolation). Known finding KF-C16-MEMOZERO excluded by an oracle-side predicate. Under Recover(false) the report of an exhausted budget is accepted returned or escaping.", "DESIGN.md 3/C16"),
     "C20": ("regen", "differential PBT of the two front-ends on generated grammars of the bootstrap subset (part a) + exhaustive regeneration of all checked-in artifacts (part b)",
             "Part a: rapid-drawn grammars of the bootstrap subset, spelled with drawn quotings/escapes/operators, parsed by bootstrap.Parser and by the generated front-end, ASTs compared structurally. Part b enumerates the finite set of Makefile generation rules completely and compares bytes; the chain fixpoint is checked.",
             "Trusted: the small make-subset interpreter; the Go toolchain.", "DESIGN.md 3/C20"),
